@@ -476,6 +476,7 @@ func init() {
 		Rules: []func(*Ctx){func(c *Ctx) {
 			ruleScannerIsolation(c, "I1-extension-isolation")
 			ruleScannerTables(c, "I2-scanner-tables")
+			ruleRuneErrorWidth(c, "I3-rune-error-width")
 			c.Floor("I2-scanner-tables", 40)
 		}},
 		Technique: "AST/type-resolved custom analysis: control dependence of extension-token assignments, table agreement of the token switch against the Go specification",
